@@ -328,6 +328,8 @@ private:
       bool const queues_and_events_empty = _check_frontend_queues_and_cached_transit_events_empty();
       if (queues_and_events_empty)
       {
+        QUILL_VERIF_YIELD(5);
+
         _cleanup_invalidated_thread_contexts();
         _cleanup_invalidated_loggers();
         _try_shrink_empty_transit_event_buffers();
